@@ -8,7 +8,7 @@ is what every reader addresses [seqalg/layout rules]; (c) read-back paths pair d
 import ast
 from ..lib import Toolkit
 from ..guards import Formulas, check_guard, order_atoms, is_len_of, find_calls, facts_at, refusals
-from ..terms import alts, attr_chain, walk, is_const, call_name
+from ..terms import alts, attr_chain, walk, is_const, call_name, np_call as np_call_
 from ..coherence import Coherence, report
 from .. import layout
 
@@ -93,6 +93,20 @@ def to_numpy(ctx, tk):
         return None
     forms = Formulas([alleq])
     check_guard(ctx, "C01.c", f, sinks, forms, lambda A: A["all_rows_equal"], ["all_rows_equal"], what, fa=fa)
+    # the (0, 0) shortcut is taken only for an array without rows (an array of empty rows keeps its row count)
+    for r in fa.cfg.returns():
+        tm = fa.term(r.ast.value, r)
+        if np_call_(tm, {"empty", "zeros"}) and any(x.k == "tuple" and all(is_const(y, 0) for y in x.a[0]) for x in walk(tm)):
+            def is_rows(t):
+                return (t.k == "call" and call_name(t) == "len" and t.a[1] and t.a[1][0].k == "param") or (attr_chain(t) or ("",))[-1] == "n_rows"
+
+            def is_cells(t):
+                return (attr_chain(t) or ("",))[-1] == "size"
+            m1, c1, (E1, G1, L1) = order_atoms("rows", is_rows, lambda t: is_const(t, 0))
+            m2, c2, (E2, G2, L2) = order_atoms("cells", is_cells, lambda t: is_const(t, 0))
+            check_guard(ctx, "C01.c", f, [r], Formulas([m1, m2]), lambda A: A[E1], [E1, G1, L1, E2, G2, L2],
+                        "the empty-matrix shortcut is taken only when the array has no rows", fa=fa, constraints=c1 + c2 + [("or", [("not", ("atom", E1)), ("atom", E2)])],
+                        describe="an array consisting of empty rows loses its row count and dtype")
     # reshape(R, C): first extent is the row count, second the common length
     for n, c in find_calls(fa, lambda c: c.a[0].k == "attr" and c.a[0].a[1] == "reshape"):
         args = c.a[1]
